@@ -658,15 +658,20 @@ impl<RW: QueueRW<T>, T> InnerRecv<RW, T> {
         }
     }
 
-    pub fn unsubscribe(self) -> bool {
-        self.reader.get_consumers() == 1
+    pub fn unsubscribe(mut self) -> bool {
+        // The answer comes from the decrement itself: looking at the count first
+        // and dropping afterwards lets two racing handles both see "not the last"
+        unsafe { self.do_unsubscribe_with(|| ()) }
     }
 
-    /// Runs the passed function after unsubscribing the reader from the queue
-    unsafe fn do_unsubscribe_with<F: FnOnce()>(&mut self, f: F) {
+    /// Runs the passed function after unsubscribing the reader from the queue.
+    /// Returns true if this was the last handle of its stream.
+    unsafe fn do_unsubscribe_with<F: FnOnce()>(&mut self, f: F) -> bool {
+        let mut was_last = false;
         if self.alive {
             self.alive = false;
             if self.reader.remove_consumer() == 1 {
+                was_last = true;
                 vpoint!(RX_UNSUB_DEC);
                 if self
                     .queue
@@ -684,6 +689,7 @@ impl<RW: QueueRW<T>, T> InnerRecv<RW, T> {
             vpoint!(RX_UNSUB_DONE);
             f()
         }
+        was_last
     }
 }
 
@@ -759,8 +765,13 @@ impl<RW: QueueRW<T>, T> FutInnerRecv<RW, T> {
     }
 
     /// Identical to InnerRecv::unsubscribe()
-    pub fn unsubscribe(self) -> bool {
-        self.reader.reader.get_consumers() == 1
+    pub fn unsubscribe(mut self) -> bool {
+        let prod_wait = self.prod_wait.clone();
+        unsafe {
+            self.reader.do_unsubscribe_with(|| {
+                prod_wait.notify();
+            })
+        }
     }
 }
 
@@ -800,8 +811,13 @@ impl<RW: QueueRW<T>, R, F: FnMut(&T) -> R, T> FutInnerUniRecv<RW, R, F, T> {
     }
 
     /// Identical to InnerRecv::unsubscribe()
-    pub fn unsubscribe(self) -> bool {
-        self.reader.reader.get_consumers() == 1
+    pub fn unsubscribe(mut self) -> bool {
+        let prod_wait = self.prod_wait.clone();
+        unsafe {
+            self.reader.do_unsubscribe_with(|| {
+                prod_wait.notify();
+            })
+        }
     }
 
     pub fn into_multi(self) -> FutInnerRecv<RW, T> {
@@ -1139,7 +1155,9 @@ impl<RW: QueueRW<T>, T> Drop for InnerSend<RW, T> {
 
 impl<RW: QueueRW<T>, T> Drop for InnerRecv<RW, T> {
     fn drop(&mut self) {
-        unsafe { self.do_unsubscribe_with(|| ()) }
+        unsafe {
+            self.do_unsubscribe_with(|| ());
+        }
     }
 }
 
@@ -1181,7 +1199,7 @@ impl<RW: QueueRW<T>, T> Drop for FutInnerRecv<RW, T> {
         unsafe {
             self.reader.do_unsubscribe_with(|| {
                 prod_wait.notify();
-            })
+            });
         }
     }
 }
@@ -1192,7 +1210,7 @@ impl<RW: QueueRW<T>, R, F: for<'r> FnMut(&T) -> R, T> Drop for FutInnerUniRecv<R
         unsafe {
             self.reader.do_unsubscribe_with(|| {
                 prod_wait.notify();
-            })
+            });
         }
     }
 }
